@@ -145,7 +145,69 @@ func lateIndexWitness(rep *Report) {
 	rep.count("late-index-witness")
 }
 
+// triggerChurn: permanent triggers P1, P2 on a column registered AFTER four transient ones; a dropper removes
+// the transient triggers (each drop shifts P1, P2 in the column's list of computed columns) while a writer
+// commits one store per transaction. Every committed store must reach P1 and P2 exactly once.
+func triggerChurn(rep *Report) {
+	rounds := 150
+	if rep.Tier == "thorough" {
+		rounds = 3000
+	}
+	bad := ""
+	for iter := 0; iter < rounds && bad == ""; iter++ {
+		c := column.NewCollection(column.Options{Capacity: 64, Vacuum: 24 * time.Hour})
+		c.CreateColumn("a", column.ForInt64())
+		c.Insert(func(r column.Row) error { r.SetInt64("a", 0); return nil })
+		var p1, p2, tr int64
+		for k := 0; k < 4; k++ {
+			c.CreateTrigger(fmt.Sprintf("t%d", k), "a", func(column.Reader) { atomic.AddInt64(&tr, 1) })
+		}
+		c.CreateTrigger("p1", "a", func(column.Reader) { atomic.AddInt64(&p1, 1) })
+		c.CreateTrigger("p2", "a", func(column.Reader) { atomic.AddInt64(&p2, 1) })
+		const commits = 120
+		var wg sync.WaitGroup
+		start := make(chan struct{})
+		wg.Add(2)
+		go func() {
+			defer wg.Done()
+			<-start
+			for i := 0; i < commits; i++ {
+				c.QueryAt(0, func(row column.Row) error { row.SetInt64("a", int64(i)); return nil })
+			}
+		}()
+		go func() {
+			defer wg.Done()
+			<-start
+			for k := 0; k < 4; k++ {
+				for j := 0; j < 300*(iter%5); j++ {
+					runtime.Gosched() // spread the drops over the writer's run
+				}
+				c.DropTrigger(fmt.Sprintf("t%d", k))
+			}
+		}()
+		close(start)
+		wg.Wait()
+		if p1 != commits || p2 != commits {
+			bad = fmt.Sprintf("round %d: %d transactions committed one store each to column a; trigger p1 was called %d times, p2 %d times (transient triggers on the same column were dropped meanwhile)", iter, commits, p1, p2)
+		}
+		c.Close()
+	}
+	if bad != "" {
+		v := Violation{Property: rep.Property, Kind: "oracle", Clause: bad, Script: []string{"stress triggerChurn"}}
+		writeReplay(rep.Property, "stress", &v)
+		rep.Violations = append(rep.Violations, v)
+	}
+	rep.count(fmt.Sprintf("trigger-churn-rounds=%d", rounds))
+}
+
 func runStress(rep *Report, replay string) {
+	if rep.Property == "C19" {
+		// this property's concurrent part only: triggers beside trigger creation / removal
+		triggerChurn(rep)
+		rep.Cases, rep.DistinctNontrivial = 150, 150
+		rep.Rule = "trigger churn: per round a fresh collection with four transient and two permanent triggers on one column, a writer committing 120 single-store transactions while the transient triggers are dropped; the permanent triggers must count exactly 120 calls each"
+		return
+	}
 	dur := 3 * time.Second
 	if rep.Tier == "thorough" {
 		dur = 40 * time.Second
@@ -164,6 +226,7 @@ func runStress(rep *Report, replay string) {
 	if rep.Property == "C18" && replay == "" {
 		growthWitness(rep)
 		lateIndexWitness(rep)
+		triggerChurn(rep)
 	}
 	c := stressColl()
 	// initial population: rows keep the invariant a + b = sum, s = decimal(a)
